@@ -284,8 +284,10 @@ void pp_map_tatep_k18(fp18_t r, const ep_t p, const ep3_t q) {
 
 		ep_norm(_p[0], p);
 		ep3_norm(_q[0], q);
-		fp3_mul(_q[0]->x, _q[0]->x, core_get()->ep3_frb[2]);
-		fp3_mul(_q[0]->y, _q[0]->y, core_get()->ep3_frb[2]);
+		if (ep3_curve_is_twist() == RLC_EP_MTYPE) {
+			fp3_mul(_q[0]->x, _q[0]->x, core_get()->ep3_frb[2]);
+			fp3_mul(_q[0]->y, _q[0]->y, core_get()->ep3_frb[2]);
+		}
 		ep_curve_get_ord(n);
 		fp18_set_dig(r, 1);
 
@@ -332,8 +334,10 @@ void pp_map_sim_tatep_k18(fp18_t r, const ep_t *p, const ep3_t *q, int m) {
 			if (!ep_is_infty(p[i]) && !ep3_is_infty(q[i])) {
 				ep_norm(_p[j], p[i]);
 				ep3_norm(_q[j], q[i]);
-				fp3_mul(_q[j]->x, _q[j]->x, core_get()->ep3_frb[2]);
-				fp3_mul(_q[j]->y, _q[j]->y, core_get()->ep3_frb[2]);
+				if (ep3_curve_is_twist() == RLC_EP_MTYPE) {
+					fp3_mul(_q[j]->x, _q[j]->x, core_get()->ep3_frb[2]);
+					fp3_mul(_q[j]->y, _q[j]->y, core_get()->ep3_frb[2]);
+				}
 				j++;
 			}
 		}
@@ -398,8 +402,10 @@ void pp_map_weilp_k18(fp18_t r, const ep_t p, const ep3_t q) {
 
 		if (!ep_is_infty(_p[0]) && !ep3_is_infty(_q[0])) {
 			pp_mil_k18(r1, t1, _q, _p, 1, n);
-			fp3_mul(_q[0]->x, _q[0]->x, core_get()->ep3_frb[2]);
-			fp3_mul(_q[0]->y, _q[0]->y, core_get()->ep3_frb[2]);
+			if (ep3_curve_is_twist() == RLC_EP_MTYPE) {
+				fp3_mul(_q[0]->x, _q[0]->x, core_get()->ep3_frb[2]);
+				fp3_mul(_q[0]->y, _q[0]->y, core_get()->ep3_frb[2]);
+			}
 			pp_mil_lit_k18(r0, t0, _p, _q, 1, n);
 			fp18_inv(r1, r1);
 			fp18_mul(r0, r0, r1);
@@ -468,8 +474,10 @@ void pp_map_sim_weilp_k18(fp18_t r, const ep_t *p, const ep3_t *q, int m) {
 		if (j > 0) {
 			pp_mil_k18(r1, t1, _q, _p, j, n);
 			for (i = 0; i < j; i++) {
-				fp3_mul(_q[i]->x, _q[i]->x, core_get()->ep3_frb[2]);
-				fp3_mul(_q[i]->y, _q[i]->y, core_get()->ep3_frb[2]);
+				if (ep3_curve_is_twist() == RLC_EP_MTYPE) {
+					fp3_mul(_q[i]->x, _q[i]->x, core_get()->ep3_frb[2]);
+					fp3_mul(_q[i]->y, _q[i]->y, core_get()->ep3_frb[2]);
+				}
 			}
 			pp_mil_lit_k18(r0, t0, _p, _q, j, n);
 			fp18_inv(r1, r1);
